@@ -492,4 +492,10 @@ class RadialProfile(ProfileBase):
         """
         The raw data profile as a 1D `~numpy.ndarray`.
         """
-        return self._data_profile[1]
+        data_profile = self._data_profile[1]
+        if self.normalization_value != 1.0:
+            # the profile was normalized before data_profile was first
+            # evaluated; normalize and unnormalize rescale only cached
+            # values
+            data_profile = data_profile / self.normalization_value
+        return data_profile
